@@ -588,4 +588,60 @@ theorem blockRequest_eq (g p : Option (List BlockRule)) (ip : Nat) :
         | none => simp [rulesProcess]
         | some pr => simp
 
+/-! ## loaders -/
+
+theorem newNode_isSome_iff (nf : SlNodeFile) : (newNode nf).isSome = true ↔ nodeTypeOK nf.ty = true := by
+  unfold newNode nodeTypeOK
+  generalize asciiLower nf.ty = t
+  simp only [Bool.or_eq_true, beq_iff_eq]
+  repeat' split
+  all_goals simp_all
+
+theorem newNodes_isSome_iff (nfs : List SlNodeFile) :
+    (newNodes nfs).isSome = true ↔ ∀ n ∈ nfs, nodeTypeOK n.ty = true := by
+  induction nfs with
+  | nil => simp [newNodes]
+  | cons nf rest ih =>
+    unfold newNodes
+    cases hn : newNode nf with
+    | none =>
+      have : ¬ nodeTypeOK nf.ty = true := by
+        intro h
+        have := (newNode_isSome_iff nf).mpr h
+        rw [hn] at this
+        exact absurd this (by simp)
+      simp [this]
+    | some n =>
+      have hok : nodeTypeOK nf.ty = true := (newNode_isSome_iff nf).mp (by rw [hn]; rfl)
+      cases hr : newNodes rest with
+      | none =>
+        rw [hr] at ih
+        simp only [Option.isSome_none, Bool.false_eq_true, false_iff] at ih
+        simp only [Option.isSome_none, Bool.false_eq_true, false_iff]
+        intro h
+        exact ih (fun x hx => h x (List.mem_cons_of_mem _ hx))
+      | some ns =>
+        rw [hr] at ih
+        simp only [Option.isSome_some, true_iff] at ih
+        simp only [Option.isSome_some, true_iff]
+        intro x hx
+        simp only [List.mem_cons] at hx
+        rcases hx with rfl | hx
+        · exact hok
+        · exact ih x hx
+
+theorem quoteEsc_of_clean (realm : Bytes) (h : realmClean realm = true) : quoteEsc realm = realm := by
+  induction realm with
+  | nil => rfl
+  | cons c rest ih =>
+    unfold realmClean at h
+    simp only [List.all_cons, Bool.and_eq_true, bne_iff_ne, ne_eq] at h
+    unfold quoteEsc
+    have hc : ¬ (c = 34 ∨ c = 92) := by
+      intro hh
+      rcases hh with hh | hh
+      · exact h.1.1 hh
+      · exact h.1.2 hh
+    rw [if_neg hc, ih (by unfold realmClean; exact h.2)]
+
 end BfeVerif.C51
